@@ -86,6 +86,13 @@ guard_item('g_vq_commit', VQ, 'VectorQuantize.forward',
 guard_item('g_lfq_commit', LFQF, 'LFQ.forward',
            lambda s: isinstance(s, ast.Assign) and ast.unparse(s.targets[0]) == 'commit_loss' and 'F.mse_loss' in ast.unparse(s.value),
            'commit_loss = F.mse_loss(original_input, quantized.detach(), ...): gated on the LIVE weight attribute')
+# the three mask applications of VectorQuantize.forward: padded rows zeroed on entry, padded outputs zeroed and padded indices set to -1 on exit -
+# each is guarded by "a mask was given" and NOTHING else (seed C09-k gated the first on self.training, seed C13-k the last on a live hyper-parameter)
+def _and(p, q):
+    return lambda s_: p(s_) and q(s_)
+guard_item('g_vq_zero_padded_input', VQ, 'VectorQuantize.forward', _and(stmt_assigns('x'), stmt_calls('einx.where')), 'x = einx.where(mask, x, 0.) on entry')
+guard_item('g_vq_mask_output', VQ, 'VectorQuantize.forward', _and(stmt_assigns('quantize'), stmt_calls('einx.where')), 'quantize = einx.where(mask, quantize, 0.) on exit')
+guard_item('g_vq_mask_indices', VQ, 'VectorQuantize.forward', _and(stmt_assigns('embed_ind'), stmt_calls('einx.where')), 'embed_ind = einx.where(mask, embed_ind, -1) on exit')
 guard_item('g_rvq_shared_update', RVQ, 'ResidualVQ.forward', stmt_calls('shared_layer._codebook.update_ema'), 'shared update_ema()')
 guard_item('g_rvq_shared_expire', RVQ, 'ResidualVQ.forward', stmt_calls('shared_layer.expire_codes_'), 'shared expire_codes_()')
 guard_item('g_rvq_shared_opt', RVQ, 'ResidualVQ.forward', stmt_calls('shared_layer.update_in_place_optimizer'), 'shared update_in_place_optimizer()')
